@@ -3,6 +3,7 @@ import elevels
 import elock
 import eptr
 import eidx
+import eslab
 import ecanon
 import elin
 import evlm
@@ -74,6 +75,11 @@ def run(ctx):
                 "for a one-bit tag and for no tag.")
     nit = eidx.run(ctx, F)
     ctx.floor("E-IDX.tagbits", "interpreted constant / accessor situations", nit, 18)
+    ctx.explain("E-SLAB.page: a fresh page of the pointer-based manager's slab allocator (Page::new, interpreted with integer addresses: "
+                "256 byte page, 40 byte header, 16 byte slots) threads exactly the 13 slots that fit into one null-terminated free list "
+                "inside the page; Page::page_ptr masks any address of the page to its base.")
+    nsl = eslab.run(ctx, F)
+    ctx.floor("E-SLAB.page", "interpreted slab page situations", nsl, 4)
     ctx.explain("E-REC.depth: every splitting method of the ParallelRecursors decrements remaining_depth, the switch to the "
                 "sequential recursor happens exactly at 0, and the SequentialRecursor never asks for a switch.")
     nrd = elock.run_recursor_depth(ctx, F)
